@@ -367,6 +367,6 @@ class Tree(DictSWC):
         --------
         ~swcgeom.Tree.from_swc
         """
-        extra_cols = extra_cols or []
+        extra_cols = list(extra_cols) if extra_cols is not None else []
         extra_cols.extend(k for k, t in eswc_cols)
         return cls.from_swc(swc_file, extra_cols=extra_cols, **kwargs)
